@@ -40,10 +40,11 @@ class _Return(Exception):
 
 
 class PEval(object):
-    def __init__(self, module, self_name=None, max_depth=4):
+    def __init__(self, module, self_name=None, max_depth=4, cls=None):
         self.module = module
         self.self_name = self_name
         self.max_depth = max_depth
+        self.cls = cls          # class attributes read through self are evaluated (its own win over inherited ones)
 
     def run(self, fnode, args=None, depth=0):
         env = {}
@@ -130,6 +131,8 @@ class PEval(object):
                     return StateMap()
                 if n.attr == '__class__':
                     return Sym('class')
+                if self.cls is not None and n.attr in self.cls.attrs and n.attr not in self.cls.methods:
+                    return self.ev(self.cls.attrs[n.attr], {}, depth)
                 return Sym('attr', n.attr)
             if isinstance(b, StateMap) and n.attr == 'get':
                 return ('stateget',)
